@@ -49,7 +49,7 @@ impl Prop for C13 {
         "each evaluation = one seeded operation history over Archive on the sim disk: register_stream (printable-ASCII names, repeats), add_part / add_part_buffered (0..64 KiB data, metadata at every byte-length boundary up to 2^64-1), flush_buffers, set_raw_size, flush + close, reopen, then get_part / get_part_by_id / get_num_parts / get_stream_id / get_raw_size in generated order plus a full sweep; every answer is compared with a Vec<Stream> model; half of the histories run with short writes/reads, EINTR and BufWriter capacities 1..4096. distinct_nontrivial = distinct operation-history digests among histories with >=3 write operations."
     }
     fn runs(&self, tier: Tier) -> u64 {
-        match tier { Tier::Quick => 120_000, Tier::Thorough => 12_000_000 }
+        match tier { Tier::Quick => 1_200_000, Tier::Thorough => 60_000_000 }
     }
     fn run_chunk(&self, ctx: &Ctx, indices: &[u64]) -> Vec<RunReport> {
         indices.iter().map(|&i| report(&container::generate(seed::run_seed(ctx.base_seed ^ 0xC13, i)), i, i < 2)).collect()
